@@ -133,4 +133,36 @@ example : ProgDom [.assign 2 (.bin .Multiply (.active 0 0) (.noalias (.active 1 
     (fun _ => (1:ℝ)) := by
   simp [ProgDom, Node.rebind, Node.wf, Node.dom, BOp.dom]
 
+/-- **Branches on comparisons.**  `if (L OP R) x = e1; else x = e2;` with `L`, `R` active expressions or passive numbers in any
+    combination: over ℝ each of the six operators decides the relation it denotes between the VALUES of its two sides, taken
+    in the order written (`c < x` is `c < x`, not `x < c`), and the recording is exactly the assignment of the selected branch —
+    so T4/T5 apply to the trace, whichever branch each comparison selects. -/
+theorem C01_branch_is_selected_assignment (s : St ℝ) (h : Nat) (x : Var ℝ) (o : CmpOp) (l r : CmpSide ℝ)
+    (e1 e2 : Node ℝ) (init : Scratch ℝ) :
+    (o.holds l.value r.value = true ↔
+      (match o with
+       | .lt => l.value < r.value | .gt => l.value > r.value | .le => l.value ≤ r.value
+       | .ge => l.value ≥ r.value | .eq => l.value = r.value | .ne => l.value ≠ r.value)) ∧
+    s.branch h x o l r e1 e2 init =
+      (if o.holds l.value r.value = true then s.assign h x e1 init else s.assign h x e2 init) := by
+  refine ⟨?_, ?_⟩
+  · cases o <;> simp only [CmpOp.holds, lt_real, le_real, decide_eq_true_eq, Bool.and_eq_true, Bool.not_eq_true',
+      Bool.and_eq_false_iff, decide_eq_false_iff_not, gt_iff_lt, ge_iff_le]
+    · exact ⟨fun ⟨a, b⟩ => le_antisymm a b, fun e => ⟨le_of_eq e, ge_of_eq e⟩⟩
+    · constructor
+      · rintro (h1 | h1) e
+        · exact h1 (le_of_eq e)
+        · exact h1 (ge_of_eq e)
+      · intro hne
+        by_cases h1 : l.value ≤ r.value
+        · right; intro h2; exact hne (le_antisymm h1 h2)
+        · left; exact h1
+  · unfold St.branch
+    by_cases hb : o.holds l.value r.value = true <;> simp [hb]
+
+/-- non-vacuity: `2 < x` at `x = 3` selects the first branch, `x < 2` does not -/
+example : CmpOp.holds .lt (CmpSide.num (2 : ℝ)).value (CmpSide.num (3 : ℝ)).value = true ∧
+    CmpOp.holds .lt (CmpSide.num (3 : ℝ)).value (CmpSide.num (2 : ℝ)).value = false := by
+  norm_num [CmpOp.holds, CmpSide.value]
+
 end Adept.Expr
